@@ -92,7 +92,8 @@ class Var:
             for c in self.cats:
                 d = {"id": c["id"], "missing": c["missing"], "name": c["name"],
                      "numeric_value": c.get("numeric_value")}
-                if self.kind == "cat_date":
+                if self.kind == "cat_date" and not c.get("nodate"):
+                    # a categorical-date dimension is one where ANY category carries a date
                     d["date"] = c.get("date", "2020-%02d" % (abs(c["id"]) % 12 + 1))
                 if c.get("selected"):
                     d["selected"] = True
@@ -218,6 +219,14 @@ def gen_var(rng, kind, alias, n=None, ncat=None, allow_missing=True, numeric="so
     if kind == "logical":
         return Var("logical", alias, cats=copy.deepcopy(MR_CATS))
     v = Var(kind, alias, cats=gen_cats(rng, n, allow_missing, numeric, min_valid))
+    if kind == "cat_date" and len(v.cats) >= 2 and rng.random() < 0.3:
+        # some categories (possibly the first ones) carry no date; at least one keeps it
+        k = rng.randrange(len(v.cats))
+        for i, c in enumerate(v.cats):
+            if i != k and rng.random() < 0.5:
+                c["nodate"] = True
+        if rng.random() < 0.5 and k != 0:
+            v.cats[0]["nodate"] = True
     if kind in ("cat", "cat_date") and rng.random() < 0.2:
         perm = list(range(len(v.cats)))
         rng.shuffle(perm)
